@@ -40,7 +40,7 @@ func init() {
 		Directed:   c05Directed,
 		Run:        c05Run,
 		MustHit:    []string{"delay_to_bound", "offset=0", "offset=+1ns", "offset=-1ns", "kind=sc-nooa", "kind=cond-nb", "kind=cond-nooa", "bad_bound", "skewed_clock", "non_utc_location"},
-		RandomRuns: map[string]int{"quick": 1500, "thorough": 60000},
+		RandomRuns: map[string]int{"quick": 8000, "thorough": 60000},
 		Assumptions: []string{
 			"RFC 3339 grey areas (leap seconds, lower-case t/z, hour 24) are not generated",
 			"certificate windows are decades wide so only assertion bounds decide",
